@@ -445,7 +445,8 @@ func runC03(c *Checker) {
 	if nCallers < 4 {
 		c.fail("HSK-ERR", "callers of DoHandshake", token.NoPos, fmt.Sprintf("expected the gRPC client and server handshakes, Dial and the listener, found %d callers", nCallers))
 	}
-	c.floor("HSK-ERR", 19)
+	ruleMachineReplacedFirst(c, "HSK-ERR")
+	c.floor("HSK-ERR", 21)
 
 	// ---- HSK-SIB ----
 	// token dispatch, from the branch facts of the SSA (a switch and an if-chain look the same):
@@ -1476,7 +1477,8 @@ func runC04(c *Checker) {
 	pub("SetAuthData", fRP, func(f Fact) bool { return f.Val && isLoadOfField(f.Cond, fInit) },
 		"SetAuthData(receivedPayload) iff initiator, after split, error checked")
 	ruleMetadataFresh(c, "PUBLISH")
-	c.floor("PUBLISH", 4)
+	ruleConnDataGuard(c, "PUBLISH")
+	c.floor("PUBLISH", 10)
 }
 
 // ruleHSKVER checks every use of the version byte read from the wire.
